@@ -222,6 +222,8 @@ func (e *Env) ident(n string) CV {
 		return g.cv("nil", "Nil", nil)
 	case "eps":
 		return g.cv("eps", "B", nil)
+	case "fzero":
+		return g.cv("fzero", "F64", nil)
 	case "RK", "IK":
 		return g.cv(n, "Int", nil)
 	}
@@ -672,6 +674,32 @@ func (e *Env) call(x *CE, pos bool) CV {
 		return CV{v, et}
 	case "isbool":
 		return g.cv("((_ is ABool) "+argv(0).S+")", "Bool", nil)
+	case "nth":
+		// nth(i, f(args)): the i-th result of a pure Go function with several results
+		if len(args) != 2 || args[0].Op != "num" || args[1].Op != "call" || args[1].Args[0].Op != "ident" {
+			fail("nth(i, f(args)) needs a literal index and a call of a pure function: %s", x)
+		}
+		fname := args[1].Args[0].Name
+		fn, ok := g.P.Funcs[fname]
+		fs := g.Specs.Funcs[fname]
+		if !ok || fs == nil || !fs.Pure {
+			fail("%s: %s must be a Go function declared pure", x, fname)
+		}
+		var as []T
+		for i, a := range args[1].Args[1:] {
+			v := e.tr(a, pos)
+			want := g.sortOf(fn.Params[i].Type())
+			if v.So != want {
+				v = e.coerce(v, want)
+			}
+			as = append(as, v.T)
+		}
+		rs := g.inlinePure(fn, as, e.st, e.pc)
+		k, _ := strconv.Atoi(args[0].Name)
+		if k >= len(rs) {
+			fail("%s: function has %d results", x, len(rs))
+		}
+		return CV{rs[k], fn.Signature.Results().At(k).Type()}
 	case "deref":
 		// deref(p): the value a pointer to a non-struct (e.g. *[]T) points to
 		a := argv(0)
